@@ -20,8 +20,25 @@ def _where(model, fn, loc):
 def all_vm_paths(model, rep):
     """(method-name, PathSummary) for every method of VM and VM::Activation with a body."""
     out = []
+    # private helpers that are only reached through other VM methods are covered by inlining at their call sites
+    private = set()
+    for rname in ('Theo::VM', 'Theo::VM::Activation'):
+        try:
+            for mth in model.facts.record(rname)['methods']:
+                if mth['access'] != 'public':
+                    private.add(mth['sig'])
+        except AnalysisBroken:
+            pass
+    called = set()
+    for f in model.facts.functions:
+        if f.get('rec') in ('Theo::VM', 'Theo::VM::Activation'):
+            for e in walk_all_exprs(f['body']):
+                if e.get('k') == 'call' and e.get('callee_sig'):
+                    called.add(e['callee_sig'])
     for f in model.facts.functions:
         if f.get('rec') in ('Theo::VM', 'Theo::VM::Activation') and f['tmpl'] in ('none', 'inst'):
+            if f['sig'] in private and f['sig'] in called and f['kind'] != 'ctor':
+                continue
             rep.analysed(f)
             rec = f['rec']
             name = f['name']
@@ -119,7 +136,18 @@ def c19(rep, model):
             if f['name'] != 'executeSingle' or s.opcodes != {'PREPARE_EXEC'}:
                 ok = False
                 why.append('data/stack grows outside the PREPARE_EXEC handler (opcodes %s)' % (sorted(s.opcodes) if s.opcodes else name))
-            if len(growth_ops) != 1 or len(pushes) != 1:
+            zero_count = False
+            if not growth_ops and len(pushes) == 1 and pushes[0][1].struct and pushes[0][1].struct.get('seg_size') is not None:
+                # a path on which nothing is appended is fine when the guards bound the frame size by zero
+                szt = pushes[0][1].struct['seg_size'].term
+                rng = s.p.refine.get(szt)
+                zero_count = rng is not None and rng[1] <= 0
+            if zero_count:
+                st0 = pushes[0][1].struct
+                if st0.get('data_start') is None or st0['data_start'].term != ('size', dlp, 0):
+                    ok = False
+                    why.append('activation.data_start is not size(data)')
+            elif len(growth_ops) != 1 or len(pushes) != 1:
                 ok = False
                 why.append('expected one growth of data and one activation push, found %d and %d' % (len(growth_ops), len(pushes)))
             else:
@@ -160,7 +188,9 @@ def c19(rep, model):
                     if cnt is not None and model.operand_of(cnt) != 'prepare.count':
                         ok = False
                         why.append('number of words appended is %s, not the prepare.count operand' % t_show(cnt))
-            if ok:
+            if ok and zero_count:
+                F1.ok(inst + ' [count <= 0]', 'nothing to append when the frame size is not positive; activation starts at size(data)', _where(model, f, f['loc'][1:]))
+            elif ok:
                 F1.ok(inst, 'appends prepare.count zeros; pushed activation has data_start=size(data) at entry, seg_size=prepare.count',
                       _where(model, f, f['loc'][1:]))
             else:
